@@ -2,9 +2,11 @@
 from rules.search import r05_6, r19_1, r09_3
 from rules.prefilter import r05_1, r05_2, r05_3, r05_4, r05_5
 from rules.stream import r07_6
+from rules.teddy import r06_1
+from rules.prefilter import r10_5
 
 LEVEL = 'other'
-RULES = [('R05.1', r05_1), ('R05.2', r05_2), ('R05.3', r05_3), ('R05.4', r05_4), ('R05.5', r05_5), ('R05.6', r05_6), ('R19.1', r19_1), ('R09.3', r09_3), ('R07.6', r07_6)]
+RULES = [('R05.1', r05_1), ('R05.2', r05_2), ('R05.3', r05_3), ('R05.4', r05_4), ('R05.5', r05_5), ('R05.6', r05_6), ('R19.1', r19_1), ('R09.3', r09_3), ('R07.6', r07_6), ('R06.1', r06_1), ('R10.5', r10_5)]
 EXPLANATION = """R05.1 RareBytesBuilder::add records set_offset(pos, b) for every byte of every pattern before any `continue`; R05.2
 RareByteOffsets::set keeps the maximum, offsets above 255 are rejected and patterns of 256+ bytes disable the builder before any
 offset is recorded; R05.3 candidate arithmetic of the eight PrefilterI::find_in implementations (search haystack[span]; start bytes:
@@ -15,7 +17,8 @@ prefilters for at most three bytes); R05.5 every pattern recorded in pattern_len
 leftmost-first pruning exit (packed pattern ids stay aligned); R05.6 use sites in both drivers: one call before the loop over
 get_span() whose Match is returned as is, and one in the loop only in a special, non-dead, non-match state over cursor..end, a None
 verdict ends the search, the cursor jumps only forward (i > cursor) and the jump is not followed by += 1; R09.3 no prefilter in
-anchored mode; R07.6 none in stream search."""
+anchored mode; R07.6 none in stream search. R06.1/R06.2/R10.5 the packed prefilter's window template, tail reset of the carry
+vectors and span truncation (shared with C06/C10)."""
 NOT_DECIDED = """That the byte-frequency heuristic's choice of rare bytes never lets a skip pass a true match (data dependent), and Teddy's own correctness (C06)."""
 CLAIM = """Static decision of the structural conditions under which skipping is sound: complete offset coverage and max-accumulation in the
 rare-byte builder, exact candidate arithmetic of every prefilter implementation, the conditions under which each prefilter kind may
